@@ -3,11 +3,11 @@ import fcntl, hashlib, json, os, re, subprocess, sys, time
 
 VERIF = os.path.dirname(os.path.dirname(os.path.abspath(__file__)))
 SPEC = os.path.join(VERIF, "spec")
-HARNESS = os.path.join(VERIF, "harness")
+HARNESS = os.environ.get("VERIF_HARNESS", os.path.join(VERIF, "harness"))
 CACHE = os.path.join(VERIF, "cache")
-WORK = os.path.join(VERIF, "work")
-EVID = os.path.join(VERIF, "evidence")
-REPLAYS = os.path.join(VERIF, "replays")
+WORK = os.environ.get("VERIF_WORK", os.path.join(VERIF, "work"))
+EVID = os.environ.get("VERIF_EVIDENCE", os.path.join(VERIF, "evidence"))
+REPLAYS = os.environ.get("VERIF_REPLAYS", os.path.join(VERIF, "replays"))
 REPO = os.environ.get("VERIF_REPO", "/repo")
 BIN = os.path.join(HARNESS, "target", "release", "lzverif")
 BIN_PLAIN = os.path.join(HARNESS, "target-plain", "release", "lzverif")
